@@ -337,6 +337,11 @@ def shared_static_state(ck, F, rid, what_lock, roots=None, min_roots=25, what="h
             if not fns:
                 continue
         n_static += 1
+        t_ = (gv.get("type") or "").replace("const ", "").strip()
+        if t_.startswith(("std::once_flag", "QMutex", "QBasicMutex", "QRecursiveMutex", "QReadWriteLock", "std::mutex", "std::recursive_mutex", "std::shared_mutex", "QSemaphore", "QWaitCondition", "std::condition_variable")):
+            # made to be shared: what it guards is judged on its own
+            ck.ob(rid, "%s:%s (%s)" % ((gv.get("file") or "").split("/src/")[-1], gv.get("line"), gv.get("name")), True, "%s: a synchronisation object (%s)" % (gv.get("name"), t_.split("<")[0]), key="static-state|%s" % (gv.get("name") or "").split("::")[-1])
+            continue
         stored = [(f, w) for f in fns if f is not None and f.body is not None for w in _stored_values(f, gv["decl"])]
         state = [(f, w) for f, w in stored if not _constant_value(f, w)]
         where = "%s:%s (%s)" % ((gv.get("file") or "").split("/src/")[-1], gv.get("line"), gv.get("name"))
